@@ -54,6 +54,8 @@ func c16(w *core.World, r *core.Report) {
 	ruleRefusalEnds(w, r)
 	r.Rule("R05.10", "the leader's cache stays contiguous under collection: a snapshot kept while its first log segment is collected is served to a follower again and again (shared with C05)", 3)
 	ruleJointUnderGc(w, r)
+	r.Rule("R16.12", "the handshake frame answers only a follower that named no replication id", 1)
+	ruleHandshakeOnlyForNewFollower(w, r)
 }
 
 func isReqGetter(name string) func(ssa.Value) bool {
